@@ -871,7 +871,7 @@ pub fn gen_performative(r: &mut Rng, deep: u32) -> Performative {
 /* SASL */
 
 /// `sasl-server-mechanisms` is mandatory and multiple: at least one symbol
-fn gen_sasl_mechanisms(r: &mut Rng) -> SaslMechanisms {
+pub fn gen_sasl_mechanisms(r: &mut Rng) -> SaslMechanisms {
     let n = r.range(1, 4);
     SaslMechanisms {
         sasl_server_mechanisms: Array(
